@@ -132,6 +132,65 @@ impl Env {
     }
   }
 
+  /// Like `ord`, but while the command runs the harness mines whatever the command broadcasts
+  /// (and, with `keep_mining`, further empty blocks so that a commitment can mature).
+  /// Returns the result and the transactions mined meanwhile.
+  pub fn ord_while_mining(&self, args: &[&str], keep_mining: bool) -> (Cli, Vec<Transaction>) {
+    let cookie = self.core_cookie();
+    let mut full: Vec<String> = vec![
+      "--ord-cli".into(), "ord".into(), "--chain".into(), self.chain.into(), "--bitcoin-rpc-url".into(), self.core.url(),
+      "--cookie-file".into(), cookie.display().to_string(), "--datadir".into(), self.cwd.display().to_string(), "--index-runes".into(),
+    ];
+    for a in args {
+      full.push(a.to_string());
+      if *a == "wallet" {
+        full.push("--server-url".into());
+        full.push(self.server_url.clone());
+      }
+    }
+    let (so, se) = (self.cwd.join("stdout.txt"), self.cwd.join("stderr.txt"));
+    let child = Command::new(&self.exe)
+      .args(&full)
+      .env("ORD_INTEGRATION_TEST", "1")
+      .env("TOKIO_WORKER_THREADS", "1")
+      .current_dir(&self.cwd)
+      .stdin(Stdio::null())
+      .stdout(std::fs::File::create(&so).expect("stdout file"))
+      .stderr(std::fs::File::create(&se).expect("stderr file"))
+      .spawn();
+    let mut child = match child {
+      Ok(c) => c,
+      Err(e) => return (Cli { code: -2, stdout: String::new(), stderr: format!("spawn failed: {e}") }, Vec::new()),
+    };
+    let mut mined = Vec::new();
+    let mut seen_broadcast = false;
+    let mut blocks = 0;
+    let mut code = -3;
+    for _ in 0..3000 {
+      if let Ok(Some(st)) = child.try_wait() {
+        code = st.code().unwrap_or(-1);
+        break;
+      }
+      let pool = self.mempool();
+      if !pool.is_empty() {
+        seen_broadcast = true;
+      }
+      if (!pool.is_empty() || (keep_mining && seen_broadcast)) && blocks < 12 {
+        mined.extend(pool);
+        self.mine(1, 0);
+        blocks += 1;
+        let _ = self.sync();
+      }
+      std::thread::sleep(Duration::from_millis(10));
+    }
+    if code == -3 {
+      let _ = child.kill();
+      let _ = child.wait();
+    }
+    let read = |p: &PathBuf| std::fs::read_to_string(p).unwrap_or_default();
+    (Cli { code, stdout: read(&so), stderr: read(&se) }, mined)
+  }
+
   fn core_cookie(&self) -> PathBuf {
     let p = self.scratch.path.join("core-cookie");
     if !p.exists() {
